@@ -20,7 +20,7 @@ def _nz(env, A, lo='1/100'):
 
 def cgne(env, m, n, k, kind='full'):
     Sv = env.R.solver
-    A = env.qarr('a', (m, n), kind)
+    A = env.qarr('a', (m, n), (lambda idx: 'real' if idx[0] == idx[1] else 'zero') if kind == 'diag' else kind)
     _nz(env, A)
     tol = Fraction(1, 10 ** 6) if env.symbolic else 1e-6
     solver = Sv.CGNEQSolver(tol=tol, max_iter=k)
@@ -220,7 +220,7 @@ def cells():
     out = []
     big = dict(domain='a', timeout_s=1800, q_timeout_ms=10000, ob_timeout_ms=60000, max_paths=400, events='outside')
     for (m, n), kind, k, tier in [((1, 1), 'full', 1, 'quick'), ((1, 1), 'full', 2, 'quick'), ((2, 1), 'full', 1, 'quick'), ((2, 1), 'real', 2, 'quick'),
-                                  ((2, 2), 'real', 1, 'quick'), ((2, 2), 'real', 2, 'thorough'), ((2, 1), 'full', 2, 'thorough'), ((3, 2), 'real', 1, 'thorough')]:
+                                  ((2, 2), 'diag', 1, 'quick'), ((2, 2), 'diag', 2, 'quick'), ((3, 2), 'diag', 1, 'quick'), ((2, 2), 'real', 1, 'thorough'), ((2, 2), 'real', 2, 'thorough'), ((2, 1), 'full', 2, 'thorough'), ((3, 2), 'real', 1, 'thorough')]:
         out.append(Cell('cgne[%dx%d,%s,k=%d]' % (m, n, kind, k), 'c13:cgne', dict(m=m, n=n, k=k, kind=kind), tier=tier, twin=((m, n, k) == (2, 1, 1)),
                         twin_timeout_s=600, bounds='A %dx%d (%s) symbolic, %d CG step(s)' % (m, n, kind, k), **big))
     for (m, n), iters, fail, tier in [((1, 1), 1, False, 'quick'), ((2, 1), 1, False, 'quick'), ((1, 1), 2, False, 'quick'), ((1, 1), 2, True, 'quick'),
